@@ -45,7 +45,7 @@ REAL_STUB = {
     "real": ["jinja2 environment/template cache/loader/runtime/compiled templates", "asyncio.Task/Future/timers"],
     "stub": ["event loop scheduling + clock (SimLoop)", "data awaitables / async iterables (gated)"],
 }
-BUDGET = {"quick": 28, "thorough": 600}
+BUDGET = {"quick": 45, "thorough": 600}
 CACHE_SIZES = (400, 0, 1, 2)
 
 _setup_done = False
@@ -215,8 +215,18 @@ def run(tape: Tape) -> Outcome:
     ENVCLS[0] = (0, 0, 0, 0, 0, 1, 2, 2)[tape.draw(8, "m")]
     EXTRA_GLOBAL[0] = tape.draw(3, "m") == 2
     out.count("env_class_" + ("Environment", "NativeEnvironment", "SandboxedEnvironment")[ENVCLS[0]])
-    P = Gen(tape, is_async=True, loopcontrols=lc, size=size, allow_module_state=tagged_ok, env_globals=True,
-            template_globals=True, native=ENVCLS[0] == 1, pair_den=4).generate()
+    if tape.draw(4, "m") == 3:
+        # micro programs (one filter / global / module macro used two ways by two tiny templates): with so few await
+        # points the seeded ready-queue choices cover their interleavings quickly
+        from sim import workload as W_
+
+        if ENVCLS[0] == 1:
+            ENVCLS[0] = 0
+        P = W_.micro_program(tape)
+        out.count("micro_program_runs")
+    else:
+        P = Gen(tape, is_async=True, loopcontrols=lc, size=size, allow_module_state=tagged_ok, env_globals=True,
+                template_globals=True, native=ENVCLS[0] == 1, pair_den=8).generate()
     # template-level globals, fixed per template name (documented use); 'main' and 'base' are never
     # included or imported by others, so the documented "cached template keeps its globals" cannot interfere
     tg = {}
